@@ -111,6 +111,24 @@ class Adm(object):
     if mode == 'direct':
       write(lines, 1000.0)
       obj.read_from(path)
+    elif mode == 'fault':
+      # a FAULT: on one tick of the re-read task the modification time of the (present, unchanged) file cannot be
+      # read (EACCES / EIO / ESTALE), the following ticks succeed: the file's list stays in force
+      import errno
+      write(lines, 1000.0)
+      obj.read_from(path)
+
+      def failing(p, _e=errno.EACCES):
+        raise OSError(_e, os.strerror(_e), p)
+      saved = os.path.getmtime
+      os.path.getmtime = failing
+      try:
+        clock.advance(10)
+      finally:
+        os.path.getmtime = saved
+      self.probe(probe)
+      clock.advance(10)
+      clock.advance(10)
     elif mode == 'late':
       obj.read_from(path)
       clock.advance(10)
@@ -177,8 +195,15 @@ def cases(ctx, adm, rng, n):
     bl = [gen_line(rng) for _ in range(nbl)]
     wl = [gen_line(rng) for _ in range(nwl)]
     names = [gen_name(rng, bl + wl) for _ in range(6)]
-    adm.load(adm.rl.BlackList, bl, rng.choice(['direct', 'direct', 'late', 'rewrite']), probe=names)
-    adm.load(adm.rl.WhiteList, wl, rng.choice(['direct', 'direct', 'late', 'rewrite']), probe=names)
+    mb = rng.choice(['direct', 'direct', 'late', 'rewrite'])
+    mw = rng.choice(['direct', 'direct', 'late', 'rewrite'])
+    # every fourth case one of the two lists lives through a failing tick of its re-read task (dealt, not drawn)
+    if k % 4 == 1:
+      mb = 'fault'
+    elif k % 4 == 3:
+      mw = 'fault'
+    adm.load(adm.rl.BlackList, bl, mb, probe=names)
+    adm.load(adm.rl.WhiteList, wl, mw, probe=names)
     for name in names:
       value = rng.choice([1.5, -2.0, 0.0, float('inf'), float('-inf'), float('nan'), float('nan'), 42])
       ts = rng.choice([-1.0, -1, 0.0, 7.0, 59.5, 60.0, 61.5, 119.5, 1234.5, -1.5, -5.0, -0.5])
